@@ -26,7 +26,9 @@ DRIVER = 'drv_loop_ocp'
 MODULES = ['Alpaqa.Props.C03_Ocp', 'Alpaqa.Props.C05_Ocp', 'Alpaqa.Props.C06_Ocp', 'Alpaqa.Props.C19_Ocp',
            'Alpaqa.Props.C13']
 EXTRA_SOURCES = ['Alpaqa/Model/Ocp.lean', 'Alpaqa/Proofs/OcpInv.lean', 'Alpaqa/Proofs/OcpLoop.lean',
-                 'Alpaqa/Proofs/OcpLs.lean', 'Alpaqa/Gen/C05.lean', 'Alpaqa/Gen/C06.lean',
+                 'Alpaqa/Proofs/OcpLs.lean', 'Alpaqa/Proofs/OcpFuel.lean', 'Alpaqa/Proofs/OcpTicks.lean',
+                 'Alpaqa/Proofs/OcpDescent.lean', 'Alpaqa/Proofs/OcpExample.lean', 'Alpaqa/Proofs/C06Spec.lean',
+                 'Alpaqa/Gen/C05.lean', 'Alpaqa/Gen/C06.lean',
                  'Driver/LoopOcp.lean', 'Driver/ReplayCommon.lean']
 GEN_SCRIPTS = ['gen_c05.py', 'gen_c06.py']
 
@@ -265,6 +267,40 @@ def parse_out(line):
         else:
             r['flags'].append(toks[0])
     return r
+
+
+# ------------------------------------------------------------------ oracle-event bound after stop() (C19)
+
+def tick_units(op):
+    """The model's tick units (Model/Ocp.lean: Prob.fwdTicks / fsimTicks / bwdTicks / gnTicks) and the constants of
+    `Props/C19_Ocp.ocp_ticks_after_stop` for the problem of an op line."""
+    N, nh, nc, nhN, ncN = (op.nat(k, 0) for k in ('N', 'nh', 'nc', 'nhN', 'ncN'))
+    b = lambda v: 1 if v > 0 else 0
+    fwd = N * (b(nh) + 1 + b(nc) + 1) + b(nhN) + 1 + b(ncN)
+    fsim = N * (b(nh) + b(nc) + 1) + b(nhN) + b(ncN)
+    bwd = 1 + b(ncN) + N * (2 + b(nc))
+    c = b(nc + ncN)
+    gn = N + (1 + c) + 3 * N + (N - 1 if N > 0 else 0) * (2 + c)
+    return dict(fwd=fwd, fsim=fsim, bwd=bwd, gn=gn, poll_gap=max(gn, 3, 2 * fwd + bwd),
+                init=4 + 2 * fwd + 2 * bwd + fsim)
+
+
+def tick_bound(op_line, out_line):
+    """`ocp_ticks_after_stop` on a real run: if stop() landed during event t0 (a poll at tick t sees the flag iff
+    t ≥ t0), the run made at most max(initTicks + 1, t0 + pollGap) calls.  -> None | message."""
+    op = Op.parse(op_line)
+    r = parse_out(out_line)
+    if r.get('stats', {}).get('status') in (None, 'exception'):
+        return None
+    t0 = next((int(e[1]) for e in r['events'] if e and e[0] == 'stoptick'), None)
+    if t0 is None:
+        return None
+    u = tick_units(op)
+    bound = max(u['init'] + 1, t0 + u['poll_gap'])
+    if r.get('ticks', 0) > bound:
+        return (f'stop() landed at event {t0} but the solve made {r["ticks"]} calls > '
+                f'max(initTicks + 1, t0 + pollGap) = {bound} (pollGap = {u["poll_gap"]}, initTicks = {u["init"]})')
+    return None
 
 
 # ------------------------------------------------------------------ exact OCP (rational arithmetic)
